@@ -16,6 +16,7 @@ LIMIT_ITER = 4096
 TEMPS = [0, 0, 0.5, 1, 1, 2, 2.5, 3, 7, 10]
 DAMPINGS = [(0.0, Fraction(0)), (0.3, Fraction(3, 10)), (0.85, Fraction(17, 20)), (1.0, Fraction(1))]
 N_ITERS = [1, 2, 3, 5, 10]
+SCALES = [-40, -30, -20, 20, 40]      # every weight times 2**e: exact in float64, both algorithms are scale-invariant
 
 
 # ------------------------------------------------------------------------------------------------
@@ -232,6 +233,21 @@ def vec_close(exp, got, tol=TOL):
     return len(exp) == len(got) and all(close(a, b, tol) for a, b in zip(exp, got))
 
 
+def fvec_close(a, b, tol=TOL):
+    """Two float vectors from the implementation (entries may be 'nan' strings)."""
+    if a is None or b is None:
+        return a is None and b is None
+    if len(a) != len(b):
+        return False
+    for x, y in zip(a, b):
+        if isinstance(x, str) or isinstance(y, str):
+            if x != y:
+                return False
+        elif abs(x - y) > tol + tol * abs(x):
+            return False
+    return True
+
+
 def agree(exp, got):
     """Model result vs implementation result (error kinds, NaN outcome, values within tolerance)."""
     if 'err' in exp:
@@ -263,7 +279,8 @@ def run(ctx, scratch):
     cases = []
 
     def add(algo, fam, nrow, ncol, triples, values=None, values_row=None, values_col=None, init=None, fb=False,
-            n_iter=None, damping=None, stacked_seeds=None, nosink=False, malformed=False, dtype=None, fmt=None):
+            n_iter=None, damping=None, stacked_seeds=None, nosink=False, malformed=False, dtype=None, fmt=None,
+            scale=None, scale_p=0.3):
         n_iter = rng.choice(N_ITERS) if n_iter is None else n_iter
         dfl, dq = damping if damping is not None else rng.choice(DAMPINGS)
         m = {'shape': [nrow, ncol], 'coo': [[i, j, w] for (i, j, w) in triples],
@@ -280,7 +297,24 @@ def run(ctx, scratch):
             expr = 'fit_z (dirichlet_fit %d %s %s %s %s %s %s)' % ((n_iter,) + lit)
         bip = fb or nrow != ncol or values_row is not None or values_col is not None
         cases.append(dict(algo=algo, fam=fam, args=args, expr=expr, seeds=stacked_seeds, nosink=nosink,
-                          malformed=malformed, nnodes=(nrow + ncol) if bip else nrow))
+                          malformed=malformed, nnodes=(nrow + ncol) if bip else nrow, twin=None))
+        # scale family: the same case with every weight multiplied by 2**e (model diff, all oracles, and
+        # the metamorphic check "rescaled result = original result")
+        if triples and not malformed and scale is None and rng.random() < scale_p:
+            e = rng.choice(SCALES)
+            f = 2.0 ** e
+            base = len(cases) - 1
+            tri2 = [(i, j, w * f) for (i, j, w) in triples]
+            m2 = dict(m, coo=[[i, j, w] for (i, j, w) in tri2], dtype='float')
+            args2 = dict(args, m=m2)
+            lit2 = (wmat_lit(nrow, ncol, tri2),) + lit[1:]
+            if algo == 'diffusion':
+                expr2 = 'fit_z (diffusion_fit %d %s %s %s %s %s %s %s)' % ((n_iter, cq(dq)) + lit2)
+            else:
+                expr2 = 'fit_z (dirichlet_fit %d %s %s %s %s %s %s)' % ((n_iter,) + lit2)
+            cases.append(dict(algo=algo, fam='scale2^%d_%s' % (e, fam), args=args2, expr=expr2, seeds=stacked_seeds,
+                              nosink=nosink, malformed=False, nnodes=(nrow + ncol) if bip else nrow, twin=base,
+                              scale=e))
 
     def add_square(fam, n, triples, seeds, nosink, algos=('diffusion', 'dirichlet'), kind=None, **kw):
         temps = list(seeds.values())
@@ -378,10 +412,13 @@ def run(ctx, scratch):
         c['model'] = conv_model(v)
 
     n_forms = 0
+    n_scaled = 0
+    n_limit_scaled = 0
     with Impl(scratch) as impl:
         for k, c in enumerate(cases):
             algo, fam, args = c['algo'], c['fam'], c['args']
             got = impl.call('c14', algo, args, timeout=30)
+            c['got'] = got
             ctx.traces += 1
             seeds = c['seeds']
             nontrivial = (not c['malformed']) and bool(seeds) and len(args['m']['coo']) > 0 and len(seeds) < c['nnodes']
@@ -393,6 +430,16 @@ def run(ctx, scratch):
                               case=args, expected=show(exp), observed=got, algo=algo, family=fam, oracle='model')
             if k % 350 == 0:
                 ctx.sample(dict(algo=algo, family=fam, args=args, model=show(exp), impl=got))
+            # -- metamorphic: multiplying every weight by 2**e does not change the result
+            if c['twin'] is not None:
+                n_scaled += 1
+                g0 = cases[c['twin']]['got']
+                same = ('ok' in g0) == ('ok' in got) and (
+                    'ok' not in g0 or all(fvec_close(g0['ok'][f], got['ok'][f]) for f in ('values', 'row', 'col')))
+                if not same:
+                    ctx.violation(site, 'result changes when every weight is multiplied by 2^%d' % c['scale'],
+                                  case=args, expected=g0, observed=got, algo=algo, family=fam, oracle='scale_invariance',
+                                  scale=c['scale'], original_case=cases[c['twin']]['args'])
             if c['malformed'] or 'ok' not in got or not seeds:
                 continue
             g = got['ok']
@@ -459,6 +506,11 @@ def run(ctx, scratch):
             sol = harmonic_solve(n, tri, seeds)
             if sol is None:
                 raise RuntimeError('harmonic system singular on a connected graph with a seed')
+            if rng.random() < 0.5:          # the harmonic function does not depend on the scale of the weights
+                e = rng.choice(SCALES)
+                tri = [(i, j, w * 2.0 ** e) for (i, j, w) in tri]
+                fam = 'scale2^%d_%s' % (e, fam)
+                n_limit_scaled += 1
             limit_cases.append((n, tri, seeds, fam, sol))
         ctx.margin_dropped += dropped
         # the exact solutions are themselves validated inside Coq by the executable harmonic check
@@ -469,7 +521,8 @@ def run(ctx, scratch):
         for (n, tri, seeds, fam, sol), okb in zip(limit_cases, checks):
             if okb is not True:
                 raise RuntimeError('harness error: rational harmonic solution rejected by harmonic_checkb')
-            args = dict(m={'shape': [n, n], 'coo': [[i, j, w] for (i, j, w) in tri], 'dtype': rng.choice(['int', 'float']), 'fmt': 'csr'},
+            args = dict(m={'shape': [n, n], 'coo': [[i, j, w] for (i, j, w) in tri],
+                           'dtype': 'float' if fam.startswith('scale') else rng.choice(['int', 'float']), 'fmt': 'csr'},
                         n_iter=LIMIT_ITER, values=seed_form(rng, n, seeds), values_row=None, values_col=None,
                         init=pick_init(rng, list(seeds.values())), force_bipartite=False)
             got = impl.call('c14', 'dirichlet', args, timeout=120)
@@ -480,12 +533,15 @@ def run(ctx, scratch):
                 ctx.violation('Dirichlet.fit', 'values after %d iterations differ from the harmonic solution' % LIMIT_ITER,
                               case=args, expected=[float(x) for x in sol], observed=got, algo='dirichlet',
                               family=fam, oracle='harmonic_limit')
-    ctx.extra['c14'] = dict(model_cases=len(cases), seed_form_reruns=n_forms, limit_cases=len(limit_cases),
+    ctx.extra['c14'] = dict(model_cases=len(cases), seed_form_reruns=n_forms, rescaled_twins=n_scaled,
+                            limit_cases=len(limit_cases), limit_cases_rescaled=n_limit_scaled,
                             limit_dropped_slow_mixing=dropped, limit_n_iter=LIMIT_ITER)
     ctx.rule = ('exhaustive: undirected graphs n<=4 without isolated node x seed subsets, digraphs n<=3 without sink, '
                 'biadjacency matrices up to 3x3 without empty row/column; structured random graphs (13 families) n<=%d '
                 'patched so that every node has an outgoing edge, integer weights 1..5, directed / undirected / bipartite; '
-                'sink graphs (model diff only); values=None; malformed stream. Per case: Diffusion and/or Dirichlet, n_iter in '
+                'sink graphs (model diff only); values=None; malformed stream; scale family: about 30%% of the valid cases are repeated with '
+                'every weight multiplied by 2^e, e in {-40,-30,-20,20,40} (exact in float64 and in Q), with the model diff, all oracles and '
+                'the metamorphic check rescaled result = original result (1e-9); half of the limit cases are rescaled likewise. Per case: Diffusion and/or Dirichlet, n_iter in '
                 '{1,2,3,5,10}, damping in {0,0.3,0.85,1}, seeds as array/list/dict (temperature 0 frequent), init None or within '
                 'the seed range, matrix dtype int/float and 5 container formats. Model evaluated by vm_compute inside Coq over Q '
                 '(damping as the decimal rational), diff at rel/abs 1e-9. Oracles on implementation output: bounds, Dirichlet seeds '
